@@ -329,6 +329,7 @@ func (e *ServerEnv) Served() bool { return e.served.Load() }
 func (e *ServerEnv) Finish() (returned bool, leaked []string) {
 	e.H.ReleaseAll()
 	e.PeerConn.Close()
+	e.P.Unpark()
 	Wait()
 	if !e.Served() {
 		time.Sleep(15 * time.Second)
